@@ -390,7 +390,45 @@ def check_sql_actor_scoping(u):
     return obligations, failures, samples
 
 
-CHECKS = {"sql_actor_scoping": check_sql_actor_scoping, "local_write_sequence": check_local_write_sequence, "insert_local_changes": check_insert_local_changes, "authz_layer": check_authz_layer, "readonly_guard": check_readonly_guard, "read_pool": check_read_pool}
+def check_from_conn(u):
+    """C02: BookedVersions::from_conn rebuilds the in-memory view from the persisted records: the head is first read from
+    crsql_db_versions, then every persisted partial row is folded in through insert_partial (which can only raise the head), then
+    the persisted gap rows are inserted into a snapshot that is committed.  Loading the head AFTER the partials would overwrite
+    a head raised by a partially buffered newest version."""
+    file = u["file"]
+    src, msk, o, c = _fn_body(file, u["fn"], u.get("impl"))
+    body = msk[o:c]
+    text = src[o:c]
+    obligations = ["head-loaded-from-db-before-partials-are-folded-in", "head-assigned-once", "partials-folded-in-through-insert-partial",
+                   "gap-rows-loaded-into-a-snapshot-that-is-committed"]
+    failures = []
+    maxs = [m.start() for m in re.finditer(r"\bbv\s*\.\s*max\s*=[^=]", body)]
+    parts = [m.start() for m in re.finditer(r"\bbv\s*\.\s*insert_partial\s*\(", body)]
+    snap = [m.start() for m in re.finditer(r"\bbv\s*\.\s*snapshot\s*\(", body)]
+    gins = [m.start() for m in re.finditer(r"\bsnap\s*\.\s*needed\s*\.\s*insert\s*\(", body)]
+    commit = [m.start() for m in re.finditer(r"\bbv\s*\.\s*commit_snapshot\s*\(\s*snap\s*\)", body)]
+    if not maxs or not parts or not snap or not commit:
+        raise LostAnchor("from_conn: expected bv.max =, bv.insert_partial(, bv.snapshot(), bv.commit_snapshot(snap)")
+    if len(maxs) != 1:
+        failures.append(("head-assigned-once", _line(src, o + maxs[-1]), "bv.max is assigned %d times" % len(maxs)))
+    if not (maxs[0] < parts[0]):
+        failures.append(("head-loaded-from-db-before-partials-are-folded-in", _line(src, o + maxs[0]), "bv.max is assigned from the database after insert_partial has (possibly) raised it"))
+    j = o + maxs[0]
+    e = j
+    while e < c and msk[e] != ";":
+        if msk[e] in "([{":
+            e = match_delim(msk, e)
+        e += 1
+    if "crsql_db_versions" not in src[j:e]:
+        failures.append(("head-loaded-from-db-before-partials-are-folded-in", _line(src, j), "the head is not read from crsql_db_versions"))
+    if "__corro_seq_bookkeeping" not in text[:parts[0]]:
+        failures.append(("partials-folded-in-through-insert-partial", _line(src, o + parts[0]), "insert_partial is not fed from __corro_seq_bookkeeping rows"))
+    if not gins or not (snap[0] < gins[0] < commit[0]) or "__corro_bookkeeping_gaps" not in text[snap[0]:commit[0]]:
+        failures.append(("gap-rows-loaded-into-a-snapshot-that-is-committed", _line(src, o + snap[0]), "gap rows are not inserted into the snapshot between snapshot() and commit_snapshot(snap)"))
+    return obligations, failures, ["%s:%d bv.max = … < insert_partial < snapshot < snap.needed.insert < commit_snapshot" % (file, _line(src, o + maxs[0]))]
+
+
+CHECKS = {"from_conn": check_from_conn, "sql_actor_scoping": check_sql_actor_scoping, "local_write_sequence": check_local_write_sequence, "insert_local_changes": check_insert_local_changes, "authz_layer": check_authz_layer, "readonly_guard": check_readonly_guard, "read_pool": check_read_pool}
 
 
 def run_unit(prop, u, tier, ctx, here):
